@@ -244,8 +244,12 @@ func (u *Url) SearchParams() *SearchParams {
 }
 
 func (u *Url) SetSearchParams(searchParams *SearchParams) {
-	u.searchParams = searchParams
-	u.searchParams.update()
+	// u keeps its own parameter list, which writes through to u (the given list may belong to another URL or to
+	// none, and handles obtained earlier stay valid): its contents are replaced by a copy of the given list
+	params := searchParams.Clone().params
+	sp := u.SearchParams()
+	sp.params = params
+	sp.update()
 }
 
 func (u *Url) Query() string {
